@@ -74,11 +74,14 @@ def runD (j : Json) : Except String Json := do
         let fresh := (({ meths := mm.meths } : MMap).lookup cfg (c, k)).2
         mm := mm'
         let spec := match c with
+          | none => specResolveE cfg.H mm.meths k
+          | some code => nextSpecE cfg.H mm.meths code k
+        let strict := match c with
           | none => specResolve cfg.H mm.meths k
           | some code => nextSpec cfg.H mm.meths code k
         res := Json.mkObj [("res", resToJson r), ("fresh", resToJson fresh), ("spec", specToJson spec),
           ("static", toJson (staticTable mm.meths)), ("cc", toJson (candComparable cfg.H mm.meths k)),
-          ("tie", toJson (sigTieOK cfg.H mm.meths k)),
+          ("tie", toJson (sigTieOKE cfg.H mm.meths k)), ("readings", toJson (decide (spec = strict))),
           ("napp", toJson (applicable cfg.H mm.meths k).length), ("nres", toJson nres)]
       | none => throw "bad key index"
     else if kind == "cut" then
@@ -137,11 +140,12 @@ def runF (j : Json) : Except String Json := do
           | .error _ => [("bind", toJson false)]
           | .ok x =>
             let ms := fb.mm.meths
-            let sp := match specResolve cfg.H ms x.key with
+            let sp := match specResolveE cfg.H ms x.key with
               | .ran h => (match fb.defns[h]? with | some e => SpecRes.ran e.1.d.id | none => SpecRes.ran 9999)
               | r => r
             [("bind", toJson true), ("spec", specToJson sp), ("static", toJson (staticTable ms)),
-             ("cc", toJson (candComparable cfg.H ms x.key)), ("tie", toJson (sigTieOK cfg.H ms x.key)),
+             ("cc", toJson (candComparable cfg.H ms x.key)), ("tie", toJson (sigTieOKE cfg.H ms x.key)),
+             ("readings", toJson (decide (specResolveE cfg.H ms x.key = specResolve cfg.H ms x.key))),
              ("napp", toJson (applicable cfg.H ms x.key).length), ("keylen", toJson x.key.length),
              ("truncated", toJson (decide (x.passPos.length + x.passKw.length < c.pos.length + c.kw.length)))]
       let (fn', o, t, nres) := fn.call cfg c
